@@ -38,6 +38,14 @@ LEX_TB = COMMON_TB + [
     "modelled, not verified (validated by the lexer correspondence on every run): Go string slicing/indexing, strings.Index/IndexByte/HasPrefix, utf8.DecodeRuneInString, unicode.IsLetter/IsDigit (tables regenerated from the toolchain by factgen)",
     "the lexer's tables (single/two-character tokens, keywords, sign-exclusion lists, terminators, token kinds) are regenerated from lex.go by factgen on every run (tie A); the state functions are a hand-written model compared token-by-token with the real lexer (hook VerifLex)",
 ]
+PROPS["C02"] = {
+    "lean_modules": ["C02"],
+    "rule": "stream 'lex': sources from a grammar-directed generator (all statement and expression forms, 8 delimiter families) and their mutations (byte flips, deletions, duplicated/removed delimiters, unbalanced quotes and parentheses, truncations) - real lexer vs model, token by token; non-trivial = longer than 8 bytes. stream 'parse' (direct oracle): the same sources plus a catalogue of structural mistakes (unterminated action / comment / string / raw string / char, missing and surplus end, stray else/content, two else, extends after content / import / extends, unclosed and surplus parentheses) and their well-formed counterparts, through Set.GetTemplate and Set.Parse under every delimiter family: a template or a non-nil error that names /t.jet and a line within the source; mistakes always reported, well-formed counterparts accepted; the worker process survives (no panic in caller or lexer goroutine), returns within the per-case timeout, and no goroutine is left. stream 'cycles' (direct oracle): 2-4 templates referring to each other by extends/import through absolute, extension-less, relative and unclean names, closed into a cycle (or self-reference) or not: an error exactly when there is a cycle, also on a second attempt. stream 'setm': histories of the abstract Set model (cycles included) vs the real Set.",
+    "trusted_base": LEX_TB + ["the recursive-descent parser is exercised, not modelled: its totality is covered by the oracle stream only", "the abstract Set model (Model/SetM.lean) is tied to set.go/parse.go by the history correspondence of C16"],
+    "assumptions": ["a Loader whose Exists/Open terminate"],
+    "explanation": "Theorems: loading through extends/import references needs at most 2 + n(R+3) nested calls for n files with headers of at most R references, for every reference graph (getTemplate_terminates, by induction on the number of names not yet on the parsing stack, mutually over getTemplate/loadFromFile/refsLoop), a name on the stack is refused; every lexer run ends as done/crash/out-of-fuel and its items are adjacent verbatim slices of the source. Tie: lexer correspondence, Set-history correspondence; direct oracles for parser totality, error positions, structural mistakes, goroutine leaks and cycles.",
+}
+
 PROPS["C03"] = {
     "lean_modules": ["C03"],
     "rule": "stream 'segments' (direct oracle): templates assembled from 1-7 segments - text (whitespace runs of every mix, multi-byte runes, invalid UTF-8, NUL, lone delimiter characters and closing delimiters), actions printing a known marker with/without '- ' and ' -' trim markers and inner whitespace, comments containing delimiters and trim-like text - under 8 delimiter families (default, custom action delimiters, custom comment delimiters, multi-byte delimiters); the expected bytes are assembled from the same segments by the rule of the property (text verbatim, trim markers remove the adjacent whitespace run of the text, comments nothing). Non-trivial = more than one segment. stream 'lex': the same sources, plus the general source generator and its mutations, through the lexer model token by token.",
@@ -131,6 +139,11 @@ MANIFEST_TEXT = {
         "level": "Lean 4 theorems: Runtime.isSet, Arguments.IsSet and the isset built-in with >= 1 argument never produce an error or runtime panic, for every expression, data and fuel; zero values are set, nil values are not; a piped argument is judged by its value. Tie: differential execution over access paths valid/invalid at every depth, direct and piped; constructive oracle.",
         "note": "Exactness (true iff every step exists) is covered by correspondence against the implementation and the oracle, not yet by a theorem against an independent existence spec.",
         "technique": "Lean 4 proof about the evaluator model + differential correspondence + constructive direct oracle",
+    },
+    "C02": {
+        "level": "Lean 4 theorems: (1) template loading terminates - for every loader content and every extends/import reference graph, cycles and self-references included, the mutually recursive getTemplate/loadFromFile/refsLoop of the abstract Set model need at most 2 + n(R+3) nested calls and return a template or an error (the parsing stack strictly grows over the finitely many file names); (2) every lexer run ends and its items are adjacent verbatim slices of the source. The lexer model is tied token-by-token to the real lexer, the Set model by operation histories. The parser itself is not modelled: that Parse/GetTemplate never panic, never hang, leave no goroutine, report every structural mistake and name template and line is decided by a direct oracle over generated, mutated and catalogued malformed sources in a crash-contained worker (partial: sampled, not proved).",
+        "note": "Not proved: absence of slice-bound panics in the lexer model (the model represents them as crash outcomes and the correspondence would show a divergence); parser totality.",
+        "technique": "Lean 4 proof (termination by a decreasing measure, mutual induction; lexer invariant) + differential correspondence + direct oracle in a crash/hang-contained worker",
     },
     "C03": {
         "level": "Lean 4 theorems about the lexer model, for every source, every delimiter configuration and every way the scan ends: the emit and ignore events form a chain of adjacent ranges from offset 0, and each token's value is the verbatim source slice of its range (an invariant proved through all twelve state functions and their loops), so nothing is added, reordered or altered and every byte outside a token was dropped at one of the five ignore sites; left/right trim lengths are exactly the maximal whitespace runs. Tie: real lexer vs model token by token (hook VerifLex, tables regenerated by factgen) on generated and mutated sources under 8 delimiter families; direct oracle on rendered bytes of segment-built templates.",
